@@ -528,4 +528,28 @@ func init() {
 		Old:    "\t\tantecedents := f.Parameters\n",
 		New:    "\t\tantecedents := f.Parameters\n\t\tif f.UsesExplicitProvider && len(antecedents) > 0 {\n\t\t\tantecedents = antecedents[1:]\n\t\t}\n",
 		Expect: "root-site:declared-FunctionDefinition"})
+	addFixture(Fixture{Name: "type-names-looked-up-ignoring-case", Rule: "R-IDENT-EXACT", File: "types/modality.go",
+		Old:    "\ttypeFromLabel, exists := labelledTypesEnv[q.Label]\n",
+		New:    "\ttypeFromLabel, exists := labelledTypesEnv[strings.ToLower(q.Label)]\n",
+		Expect: "folded-identifier"})
+	addFixture(Fixture{Name: "nil-error-handed-to-the-error-constructor", Rule: "R-NIL-DEREF", File: "process/typechecker.go",
+		Old:    "\t\t\tpolarityError := checkExplicitPolarityValidity(p, p.new_name_c)\n\t\t\tif polarityError != nil {\n\t\t\t\treturn TypeErrorE(polarityError)\n\t\t\t}\n\t\tdefault:",
+		New:    "\t\t\tif polarityError := checkExplicitPolarityValidity(p, p.new_name_c); polarityError != nil {\n\t\t\t\treturn TypeErrorE(err)\n\t\t\t}\n\t\tdefault:",
+		Expect: "(*process.NewForm).typecheckForm | nil-dereference"})
+	addFixture(Fixture{Name: "character-table-shorter-than-its-guard", Rule: "R-RUNE-WHOLE", File: "parser/token.go",
+		Old:    "\treturn ('a' <= ch && ch <= 'z') || ('A' <= ch && ch <= 'Z') || ('0' <= ch && ch <= '9')",
+		New:    "\tvar table [128]bool\n\treturn ch >= 0 && ch <= 255 && table[ch]",
+		Expect: "parser.isAlphaNum | whole-rune"})
+	addFixture(Fixture{Name: "line-comment-skipped-with-readline", Rule: "R-WHOLE-INPUT", File: "parser/scanner.go",
+		Old:    "\tfor {\n\t\tif ch := s.read(); ch == '\\n' || ch == eof {\n\t\t\tbreak\n\t\t}\n\t}",
+		New:    "\tif _, _, err := s.r.ReadLine(); err != nil {\n\t\treturn\n\t}",
+		Expect: "skipToEOL | partial-read"})
+	addFixture(Fixture{Name: "cut-annotation-unfolded-before-it-is-checked", Rule: "R-ANNOTATIONS", File: "process/typechecker.go",
+		Old:    "\t\t\ttypes.AddMissingModalities(&p.new_name_c.Type, labelledTypesEnv)\n",
+		New:    "\t\t\ttypes.AddMissingModalities(&p.new_name_c.Type, labelledTypesEnv)\n\t\t\tp.new_name_c.Type = types.Unfold(p.new_name_c.Type, labelledTypesEnv)\n",
+		Expect: "annotation:cut annotation checked as written"})
+	addFixture(Fixture{Name: "scan-recurses-after-a-comment", Rule: "R-SCAN-NO-RECURSION", File: "parser/scanner.go",
+		Old:    "\t\tgoto afterComment",
+		New:    "\t\tif ch == eof {\n\t\t\tgoto afterComment\n\t\t}\n\t\treturn s.Scan()",
+		Expect: "(*parser.scanner).Scan | no-self-call"})
 }
